@@ -420,8 +420,11 @@ func (e *engine) tryPositionalRename(fn *ssa.Function, blk *block) *fnResult {
 	for _, v := range cur {
 		curNames[v.name] = true
 	}
+	family := familyVars(fn)
 	for o := range alias {
-		if curNames[o] {
+		// the old name is still a variable of this function or of its enclosing function / sibling closures:
+		// the code now uses a different variable, which is not a rename
+		if curNames[o] || family[o] {
 			return nil
 		}
 	}
